@@ -1,6 +1,7 @@
 package main
 
 import (
+	"math"
 	"runtime"
 	"sync/atomic"
 	"fmt"
@@ -346,4 +347,70 @@ func newGate(n int32) func() {
 			runtime.Gosched()
 		}
 	}
+}
+
+// c18Scenarios: two goroutines report the consecutive buckets of one layout (each lower bound is the previous
+// upper bound, as a report pass does) through ONE statsd reporter; package statsd is instrumented for this
+// property, so whatever locks or atomics a reporter uses for caching rendered bounds are scheduling points.
+func c18Scenarios(tier string) []*Scenario {
+	sc := &Scenario{Property: "C18", Name: "P2-two-goroutines-consecutive-buckets"}
+	bounds := []float64{-math.MaxFloat64, 1, 2.5, 4, math.MaxFloat64}
+	dbounds := []time.Duration{math.MinInt64, time.Millisecond, time.Second, math.MaxInt64}
+	sc.Body = func(x *Run) {
+		st := &lockedStatter{}
+		rep := tstatsd.NewReporter(st, tstatsd.Options{})
+		ref := &recStatter{}
+		refRep := tstatsd.NewReporter(ref, tstatsd.Options{})
+		want := map[string]int{}
+		for _, name := range []string{"lat", "size"} {
+			for i := 0; i+1 < len(bounds); i++ {
+				refRep.ReportHistogramValueSamples(name, nil, nil, bounds[i], bounds[i+1], 1)
+			}
+			for i := 0; i+1 < len(dbounds); i++ {
+				refRep.ReportHistogramDurationSamples(name, nil, nil, dbounds[i], dbounds[i+1], 1)
+			}
+		}
+		for _, c := range ref.calls {
+			want[c.name]++
+		}
+		var ths []*rt.Thread
+		for _, name := range []string{"lat", "size"} {
+			name := name
+			ths = append(ths, rt.GoNamed("pass-"+name, func() {
+				for i := 0; i+1 < len(bounds); i++ {
+					rep.ReportHistogramValueSamples(name, nil, nil, bounds[i], bounds[i+1], 1)
+				}
+				for i := 0; i+1 < len(dbounds); i++ {
+					rep.ReportHistogramDurationSamples(name, nil, nil, dbounds[i], dbounds[i+1], 1)
+				}
+			}))
+		}
+		for _, t := range ths {
+			t.Join()
+		}
+		got := map[string]int{}
+		for _, c := range st.calls {
+			got[c.name]++
+		}
+		for n, w := range want {
+			if got[n] != w {
+				x.failf("concurrent-bucket-stat-name", "stat %q: %d increments expected, %d arrived; stat names seen %v", n, w, got[n], keysOf(got))
+				return
+			}
+		}
+		if len(got) != len(want) {
+			x.failf("concurrent-bucket-stat-name", "increments arrived under stat names no sequential call produces: %v", keysOf(got))
+		}
+	}
+	sc.Check = func(x *Run, o *rt.Outcome) (string, string, string) { return "", "", "ok" }
+	return []*Scenario{sc}
+}
+
+func keysOf(m map[string]int) []string {
+	var ks []string
+	for k := range m {
+		ks = append(ks, k)
+	}
+	sort.Strings(ks)
+	return ks
 }
